@@ -599,6 +599,21 @@ def check_validator_in_force(ctx, rng):
                     the_app.int_validator = validator('late-strict-default', False)
                     n6 = await signed(P4)
                 out.append(('default-replaced-later', n6))
+                # (5) a second attachment to an occupied prefix is refused (documented); the refused call's validator - a permissive
+                # one, or none - must not replace the validator in force for the handler that stays attached
+                D1 = [C(b'dup-strict%d' % rep)]
+                D2 = [C(b'dup-open%d' % rep)]
+                attach(D1, handler('kept-strict'), validator('kept-rejects', False))
+                attach(D2, handler('kept-open'), validator('kept-accepts', True))
+                refused = 0
+                for pre, v2 in ((D1, validator('intruder-accepts', True)), (D2, None)):
+                    try:
+                        attach(pre, handler('intruder'), v2)
+                    except ValueError:
+                        refused += 1
+                n7 = await signed(D1)
+                n8 = await signed(D2)
+                out.append(('duplicate-attach-refused', n7, n8, refused))
                 res['out'] = out
                 the_app.shutdown()
                 await asyncio.wait_for(main_task, 5)
@@ -626,6 +641,15 @@ def check_validator_in_force(ctx, rng):
             if n6 is not None and ('h', 'route-without-validator', n6) in log:
                 ctx.report(f'delivered-despite-default-validator-in-force:{fe}', 'a signed Interest reached a route without own validator although the application-wide default '
                            'validator in force when it arrived rejects it (the default of the time the filter was set was used)', w)
+            _, n7, n8, refused = res['out'][4]
+            if refused == 2:
+                ctx.event('refused-duplicate-attachment')
+                if any(e[0] == 'h' and e[2] == n7 for e in log) or ('v', 'intruder-accepts', n7) in log:
+                    ctx.report(f'refused-attachment-changed-validator-in-force:{fe}', 'after a refused second attachment (with a permissive validator) a signed Interest that the '
+                               'validator in force rejects reached a handler / was judged by the refused call\'s validator', w)
+                if ('h', 'kept-open', n8) not in log:
+                    ctx.report(f'refused-attachment-changed-validator-in-force:{fe}', 'after a refused second attachment (without validator) a signed Interest that the validator in force '
+                               'accepts no longer reaches the handler that stayed attached', w)
             n3 = res['out'][1][1]
             if ('h', 'outer', n3) in log:
                 ctx.report(f'delivered-to-handler-whose-validator-did-not-accept:{fe}', 'an Interest validated for the (meanwhile detached) longer prefix was handed to the handler of the '
